@@ -1044,3 +1044,86 @@ def gen_C13_all(tier, seed):
 
 GENERATORS["C13"] = gen_C13_all
 GENERATORS["C10"] = gen_C10
+
+
+# ------------------------------------------------------------------------------ ET / TDB (C07)
+J2000_NS = 3155716800 * SEC
+SPAN10K = 10000 * 36525 * NPD // 100
+FLOAT_SCALES = [2, 3]
+
+
+def gen_C07(tier, seed):
+    g = EGen(seed)
+    r = g.r
+    out = corpus("C07")
+    YEAR = 31557600 * SEC
+
+    def uni(i, t):          # count in uniform scale t of the TAI instant i
+        return parts_of(i - REF_NS[t]) + (t,)
+    # deterministic pool: J2000 and its neighbourhood, every quarter of a year over two centuries (phase of the yearly sine),
+    # Duration century boundaries, both ends of the 10 000-year span
+    inst = []
+    for d in (0, 1, -1, SEC, -SEC, 32184 * 10**6, -32184 * 10**6, NPD, -NPD, 43200 * SEC, -43200 * SEC):
+        inst.append(J2000_NS + d)
+    for q in range(-400, 401, budget(tier, 5, 1)):
+        inst.append(J2000_NS + q * YEAR // 4 + (q * 7919) % 1000)
+    for c in range(-99, 101, 9):
+        for d in (-1, 0, 1, 10**9):
+            inst.append(c * NPC + d)
+    for s in (-1, 1):
+        for d in (0, 1, SEC, YEAR // 3, 777 * NPD + 13):
+            inst.append(J2000_NS + s * (SPAN10K - d))
+    for i in inst:
+        for t1 in UNIFORM:
+            for t2 in FLOAT_SCALES:
+                e = uni(i, t1)
+                if t1 in (0, 1) or (i % 3 == 0):
+                    out.append(f"convf {p3(e)} {t2}")
+                if t1 == 0 or (i % 5 == 0):
+                    out.append(f"rtf {p3(e)} {t2}")
+        for t1 in FLOAT_SCALES:
+            e = parts_of(i - J2000_NS) + (t1,)
+            for t2 in (0, 1, 5):
+                out.append(f"convf {p3(e)} {t2}")
+            out.append(f"convf {p3(e)} {5 - t1}")      # ET <-> TDB (model = code only)
+        for dd in (101, -101, 150, 1000, 10**6, 99, 100, 0):
+            out.append(f"ordf {p2(parts_of(i))} {p2(parts_of(i + dd))} 0 2")
+            out.append(f"ordf {p2(parts_of(i - J2000_NS))} {p2(parts_of(i - J2000_NS + dd))} 3 0")
+    # out of the property's span and at the representable bounds (model = code; spec open)
+    for v in (MINV, MINV + 1, MAXV - 1, -SPAN10K * 3, SPAN10K * 3, 0):
+        for t1, t2 in ((0, 2), (0, 3), (2, 0), (3, 0), (2, 3), (3, 2), (4, 2), (2, 4), (3, 4), (4, 3)):
+            out.append(f"convf {p3(parts_of(v) + (t1,))} {t2}")
+    n = budget(tier, 12000, 600000)
+    for _ in range(n):
+        k = r.random()
+        if k < 0.5:
+            i = J2000_NS + r.randint(-SPAN10K, SPAN10K)
+        elif k < 0.8:
+            i = J2000_NS + r.randint(-300 * YEAR, 300 * YEAR)
+        elif k < 0.9:
+            i = J2000_NS + r.choice([-1, 1]) * int(10 ** r.uniform(0, 21))
+        else:
+            i = r.randint(-99, 100) * NPC + r.randint(-5 * SEC, 5 * SEC)
+        i = max(J2000_NS - SPAN10K, min(J2000_NS + SPAN10K, i))
+        m = r.random()
+        t1 = r.choice(UNIFORM); t2 = r.choice(FLOAT_SCALES)
+        if m < 0.35:
+            out.append(f"convf {p3(uni(i, t1))} {t2}")
+        elif m < 0.6:
+            out.append(f"convf {p3(parts_of(i - J2000_NS) + (t2,))} {t1}")
+        elif m < 0.8:
+            out.append(f"rtf {p3(uni(i, t1))} {t2}")
+        elif m < 0.9:
+            dd = r.choice([-1, 1]) * r.choice([101, 102, 110, 128, 200, 500, 10**4, 10**9, r.randint(101, 10**7)])
+            e1 = uni(i, t1); v2 = i - REF_NS[t1] + dd
+            out.append(f"ordf {e1[0]} {e1[1]} {p2(parts_of(v2))} {t1} {t2}")
+        elif m < 0.97:
+            dd = r.choice([-1, 1]) * r.choice([101, 102, 110, 128, 200, 500, 10**4, 10**9, r.randint(101, 10**7)])
+            v1 = i - J2000_NS
+            out.append(f"ordf {p2(parts_of(v1))} {p2(parts_of(v1 + dd))} {t2} {t1}")
+        else:
+            out.append(f"convf {p3(parts_of(i - J2000_NS) + (t2,))} {r.choice([4, 5 - t2])}")
+    return out
+
+
+GENERATORS["C07"] = gen_C07
